@@ -257,7 +257,7 @@ class C17(object):
                 if abs(ref[x] - reds[x]) > 1e-9:
                     r.oracle_fail = '%s%s = %r, closed form gives %r' % (name, x, reds[x], ref[x])
                     return
-            if any(v < -1e-9 for v in pis.values()):
+            if not case.get('pre') and any(v < -1e-9 for v in pis.values()):    # (a pre-assessed atom is the caller's, not the measure's)
                 r.oracle_fail = '%s has a negative atom: %s' % (name, min(pis.values()))
                 return
         # ---- permutation equivariance
